@@ -119,6 +119,7 @@ fn scenario(depth: usize, batch: BatchMode, pauses: Vec<u64>, p: u64, bound: usi
         nontrivial: adaptive,
         unbounded: false,
         loop_body: false,
+        sometimes: vec![],
     }
 }
 
